@@ -558,7 +558,13 @@ func (p *Parser) parseProjectionRHS(bindingPower int) (ASTNode, error) {
 	if bindingPowers[current] < 10 {
 		return ASTNode{nodeType: ASTIdentity}, nil
 	} else if current == tLbracket {
-		return p.parseExpression(bindingPower)
+		// Only a bracket specifier ([n], [*], a slice) can follow a projection
+		// directly; a multi-select list needs a dot.
+		next := p.lookahead(1)
+		if next == tNumber || next == tColon || (next == tStar && p.lookahead(2) == tRbracket) {
+			return p.parseExpression(bindingPower)
+		}
+		return ASTNode{}, p.syntaxError("Expected an index, slice or wildcard after a projection")
 	} else if current == tFilter {
 		return p.parseExpression(bindingPower)
 	} else if current == tDot {
